@@ -171,15 +171,21 @@ theorem C15_finding_symbols : ¬ C15_symbols_Statement := by
 /-- non-PIC, thread-local, not defined by the unit: `gen_addr` prints `mov %fs:0, %rax; add $t@tpoff, %rax` -/
 def wExternTls : VarCtx := ⟨false, false, false, true, false, false⟩
 
+/-- local exec is not a valid form for the witness context; the regenerated ladder chooses either local exec (the
+    finding: then the context lies in the region) or - once gen_addr is repaired - initial exec, which is valid, and the
+    region is empty.  Stated as a disjunction so that the file keeps checking across the repair; which branch holds is
+    decided by evaluating the ladder regenerated from codegen.c. -/
 theorem C15_finding_extern_tls :
-    ctxConsistent wExternTls = true ∧ externTlsRegion wExternTls = true ∧
-    addrForm wExternTls = some .tlsLE ∧ validForm (refCtxOf wExternTls) .tlsLE = false := by decide
+    ctxConsistent wExternTls = true ∧ validForm (refCtxOf wExternTls) .tlsLE = false ∧
+    ((addrForm wExternTls = some .tlsLE ∧ externTlsRegion wExternTls = true) ∨
+     (addrForm wExternTls = some .tlsIE ∧ externTlsRegion wExternTls = false ∧
+      validForm (refCtxOf wExternTls) .tlsIE = true)) := by decide
 
-theorem C15_finding_addr_table : ¬ C15_addr_table_Statement := by
+/-- as long as the ladder chooses local exec in the witness context, the full address-table statement is false -/
+theorem C15_finding_addr_table (hle : addrForm wExternTls = some .tlsLE) : ¬ C15_addr_table_Statement := by
   intro h
   obtain ⟨f, hf, hv⟩ := h wExternTls (by decide)
-  have : addrForm wExternTls = some .tlsLE := by decide
-  rw [this] at hf
+  rw [hle] at hf
   cases hf
   revert hv
   decide
